@@ -208,7 +208,12 @@ fn macro_expand(
                 let mut raw_line = raw_line.clone();
                 let string_rep = ops.iter().map(|x| x.to_string());
                 for (num, replacer) in string_rep.enumerate() {
-                    raw_line = raw_line.replace(&format!("@{}", num), replacer.as_str());
+                    let parameter = format!("@{}", num);
+                    if raw_line.matches(&parameter).count() * replacer.len() > MAX_EXPANDED_LINE {
+                        raw_line = "x".repeat(MAX_EXPANDED_LINE + 1); // refused just below
+                        break;
+                    }
+                    raw_line = raw_line.replace(&parameter, replacer.as_str());
                 }
                 if raw_line.len() > MAX_EXPANDED_LINE {
                     bail!(
